@@ -1,3 +1,4 @@
+import CwPlus.Lemmas.Cw3StatusTotal
 import CwPlus.Lemmas.Cw3Flex
 import CwPlus.Lemmas.Cw3FlexAt
 import CwPlus.Props.C15
@@ -323,6 +324,175 @@ theorem reentrant_execute_fails {ext : Ext} {fuel : Nat} {w : World} {blk : Bloc
       { w with bank := b, flex := s', log := w.log ++ [eventOf w.flex snd (.execute id)] } out (execute_inv hi he) hx hmem
     rw [hd] at this; cases this
 
+/-! ## parity with cw3-fixed: executions = 1 iff Executed, ids `1..count`, counter monotone, created as proposed -/
+
+theorem eventOf_executed (s : State) (snd : Addr) (m : ExecMsg) (id : Nat) :
+    eventOf s snd m = .executed id ↔ m = .execute id := by
+  cases m <;> simp [eventOf]
+
+/-- A handler call makes `id` Executed exactly when it is a successful Execute of `id`, and that requires `id` not to
+be Executed before. -/
+theorem handler_isExec {s s' : State} {g : Cw4Group.State} {self : Addr} {blk : Block} {snd : Addr} {funds : List Coin}
+    {m : ExecMsg} {out : List Out} (hi : Inv s) (h : Cw3Flex.execute s g self blk snd funds m = .ok (s', out)) (id : Nat) :
+    isExec s'.core id = (isExec s.core id || decide (m = .execute id)) ∧
+    (m = .execute id → isExec s.core id = false) := by
+  obtain ⟨_, hc⟩ := execute_cases h
+  rcases hc with ⟨t, d, msgs, latest, w, total, id0, hm, _, _, _, _, hp⟩ | ⟨id0, v, hm, _, hv⟩ |
+    ⟨id0, p1, msgs, hm, _, he, _⟩ | ⟨id0, p1, hm, _, hcl, _⟩ | ⟨hm, _, rfl, _⟩
+  · obtain ⟨expires, st, _, hst, hid, _, hc'⟩ := propose_spec hp
+    have hnone : s.core.proposals.get? id0 = none := hi.wf.fresh (by omega)
+    have hst' : st ≠ .executed := fun e => by have := (cs_edge hst).2 e; simp [Proposal.tally] at this
+    subst hm
+    by_cases e : id0 = id
+    · subst e; simp [isExec, hc', hnone, hst']
+    · simp [isExec, hc', AMap.get?_set_ne _ _ _ _ e]
+  · obtain ⟨p, w, votes, st, hp, hvot, _, _, _, _, _, hst, hc'⟩ := vote_spec hv
+    have hne : p.status ≠ .executed := by intro e; simp [e, votable] at hvot
+    have hst' : st ≠ .executed := fun e => by have := (cs_edge hst).2 e; simp [Proposal.tally] at this; exact hne this
+    subst hm
+    by_cases e : id0 = id
+    · subst e; simp [isExec, hc', hp, hst', hne]
+    · simp [isExec, hc', AMap.get?_set_ne _ _ _ _ e]
+  · obtain ⟨p, hp, hst, _, _, hc'⟩ := execute_spec he
+    have hne : p.status ≠ .executed := by
+      intro e
+      have : p.currentStatus blk = .ok p.status := cs_of_ne_open (t := p.tally) (by simp [Proposal.tally, e])
+      rw [this, e] at hst; cases hst
+    subst hm
+    by_cases e : id0 = id
+    · subst e; simp [isExec, hc', hp, hne]
+    · have : ¬ id = id0 := fun e' => e e'.symm
+      simp [isExec, hc', AMap.get?_set_ne _ _ _ _ e, this, e]
+  · obtain ⟨p, _, hp, hne, _, _, _, _, _, hc'⟩ := close_spec hcl
+    subst hm
+    by_cases e : id0 = id
+    · subst e; simp [isExec, hc', hp, hne]
+    · simp [isExec, hc', AMap.get?_set_ne _ _ _ _ e]
+  · subst hm; simp
+
+/-- The ghost count of executions of `id` is 1 if `id` is stored Executed and 0 otherwise. -/
+def ExecGhost (w : World) : Prop := Inv w.flex ∧ ∀ id, executions w id = if isExec w.flex.core id then 1 else 0
+
+theorem execGhost_step (ext : Ext) (fuel : Nat) (w : World) (op : Op) (hq : ExecGhost w) : ExecGhost (step ext fuel w op) := by
+  refine step_inv ext ExecGhost ?_ ?_ (fun w b h => h) (fun w t h => h) fuel w op hq
+  · intro blk w snd funds em s' out ⟨hi, hg⟩ he
+    refine ⟨execute_inv hi he, ?_⟩
+    intro id
+    obtain ⟨h1, h2⟩ := handler_isExec hi he id
+    have hcount : executions { w with flex := s', log := w.log ++ [eventOf w.flex snd em] } id =
+        executions w id + (if em = .execute id then 1 else 0) := by
+      simp only [executions, List.count_append, List.count_cons, List.count_nil]
+      by_cases e : em = .execute id
+      · simp [e, eventOf]
+      · have : ¬ (eventOf w.flex snd em = .executed id) := fun h => e ((eventOf_executed _ _ _ _).mp h)
+        simp [e, this]
+    rw [hcount, hg id]
+    simp only [h1]
+    by_cases e : em = .execute id
+    · simp [e, h2 e]
+    · simp [e]
+  · intro blk w snd m g' outs ⟨hi, hg⟩ _
+    refine ⟨hi, fun id => ?_⟩
+    rw [← hg id]
+    simp [executions, List.count_append]
+
+theorem reachable_execGhost {ext : Ext} {fuel : Nat} {w : World} (hr : Reachable ext fuel w) : ExecGhost w := by
+  obtain ⟨m, s, g, t, bank, self, ga, ta, h0, ops, hi, rfl⟩ := hr
+  refine run_inv ext ExecGhost fuel (execGhost_step ext fuel) ops _ ⟨instantiate_inv hi, fun id => ?_⟩
+  simp [executions, World.init, isExec, instantiate_core hi, Core.empty]
+
+/-- **At most once, and exactly once iff stored Executed** (parity with `C05.executions_le_one`): over every history
+— nested self-calls, group updates and hooks dispatched by proposals, rolled-back transactions — the number of
+committed successful Execute handler calls of a proposal is 1 exactly when it is stored Executed, and 0 otherwise. -/
+theorem executions_one_iff_executed {ext : Ext} {fuel : Nat} {w : World} (hr : Reachable ext fuel w) (id : Nat) :
+    executions w id ≤ 1 ∧ (executions w id = 1 ↔ isExec w.flex.core id = true) := by
+  have := (reachable_execGhost hr).2 id
+  rw [this]
+  cases isExec w.flex.core id <;> simp
+
+/-- **Ids are exactly `1 … count`** in every reachable world (parity with `C05.ids_are_one_to_count`). -/
+theorem ids_are_one_to_count {ext : Ext} {fuel : Nat} {w : World} (hr : Reachable ext fuel w) (id : Nat) :
+    (w.flex.core.proposals.get? id).isSome = true ↔ (1 ≤ id ∧ id ≤ w.flex.core.count) :=
+  (reachable_inv hr).wf.ids id
+
+/-- **The proposal counter never decreases** over a history (parity with `C05.count_monotone`). -/
+theorem count_monotone {ext : Ext} {fuel : Nat} {w : World} (hr : Reachable ext fuel w) (ops : List Op) :
+    w.flex.core.count ≤ (run ext fuel w ops).flex.core.count :=
+  (run_later hr ops).count
+
+/-- A successful Propose touches no other proposal slot (the frame conjunct of `C05.ids_fresh_increasing`). -/
+theorem propose_frame {s s' : State} {g : Cw4Group.State} {self : Addr} {blk : Block} {snd : Addr} {funds : List Coin}
+    {t d : String} {msgs : List Msg} {latest : Option Expiration} {out : List Out}
+    (h : Cw3Flex.execute s g self blk snd funds (.propose t d msgs latest) = .ok (s', out)) :
+    ∀ id, id ≠ s.core.count + 1 → s'.core.proposals.get? id = s.core.proposals.get? id := by
+  obtain ⟨_, hc⟩ := execute_cases h
+  rcases hc with ⟨_, _, _, _, w, total, id, hm, _, _, _, _, hp⟩ | ⟨_, _, hm, _⟩ | ⟨_, _, _, hm, _⟩ | ⟨_, _, hm, _⟩ | ⟨hm, _⟩ <;> cases hm
+  obtain ⟨expires, st, _, _, hid, _, hc'⟩ := propose_spec hp
+  subst hid
+  intro id hne; rw [hc']; simp [AMap.get?_set_ne _ _ _ _ (Ne.symm hne)]
+
+/-- **"Exactly as proposed", creation link** (parity with the full `C05.expiry_le_max`).  A successful Propose at block
+`blk` creates proposal `count + 1` that starts at `blk.height`, carries exactly the submitted title, description and
+messages, the sender as proposer, the CONFIGURED threshold and deposit, the group's CURRENT total as `total_weight`,
+the proposer's current group weight as its first (Yes) ballot, and an expiry comparable with and not later than
+`max_voting_period.after(blk)` — exactly that maximum when `latest` is absent.  By `proposal_immutable` all of these
+stay fixed for ever; by `execute_out` the messages Execute returns are these `msgs`. -/
+theorem proposal_created_as_proposed {s s' : State} {g : Cw4Group.State} {self : Addr} {blk : Block} {snd : Addr}
+    {funds : List Coin} {t d : String} {msgs : List Msg} {latest : Option Expiration} {out : List Out}
+    (h : Cw3Flex.execute s g self blk snd funds (.propose t d msgs latest) = .ok (s', out)) :
+    ∃ p, s'.core.proposals.get? (s.core.count + 1) = some p ∧
+      (p.expires.cmp? (s.cfg.maxVotingPeriod.after blk) = some .lt ∨
+       p.expires.cmp? (s.cfg.maxVotingPeriod.after blk) = some .eq) ∧
+      (latest = none → p.expires = s.cfg.maxVotingPeriod.after blk) ∧
+      p.startHeight = blk.height ∧ p.title = t ∧ p.description = d ∧ p.msgs = msgs ∧ p.proposer = snd ∧
+      p.threshold = s.cfg.threshold ∧ p.deposit = s.cfg.deposit ∧ g.total.cur = some p.totalWeight ∧
+      ∃ w, memberNow g snd = some w ∧ p.votes = Votes.ofYes w ∧
+        (ballotsOf s'.core (s.core.count + 1)).get? snd = some ⟨w, .yes⟩ := by
+  obtain ⟨_, hc⟩ := execute_cases h
+  rcases hc with ⟨_, _, _, _, w, total, id, hm, hw, htot, _, _, hp⟩ | ⟨_, _, hm, _⟩ | ⟨_, _, _, hm, _⟩ | ⟨_, _, hm, _⟩ | ⟨hm, _⟩ <;> cases hm
+  obtain ⟨expires, st, hexp, _, hid, _, hc'⟩ := propose_spec hp
+  subst hid
+  refine ⟨_, by rw [hc']; exact AMap.get?_set_eq _ _ _, chooseExpiry_le hexp, ?_, rfl, rfl, rfl, rfl, rfl, rfl, rfl, htot,
+    w, hw, rfl, by rw [hc', ballotsOf_set]; simp⟩
+  intro hl; subst hl
+  simp only [chooseExpiry, Option.getD_none] at hexp
+  cases hm : s.cfg.maxVotingPeriod.after blk <;> simp [hm, Expiration.cmp?] at hexp <;> simp [hexp]
+
+/-- **End to end: what Execute returns is what was proposed.**  If proposal `count + 1` was created by
+`Propose { msgs }` in state `s0` of a reachable world and the world later reaches `w`, every successful Execute of it
+in `w` returns (after the deposit refund) exactly those `msgs`, in order. -/
+theorem executed_msgs_are_proposed {ext : Ext} {fuel : Nat} {w0 : World} (hr : Reachable ext fuel w0) (ops : List Op)
+    {id : Nat} {p0 : Proposal} (hp0 : w0.flex.core.proposals.get? id = some p0)
+    {g : Cw4Group.State} {self : Addr} {blk : Block} {snd : Addr} {funds : List Coin} {s' : State} {out : List Out}
+    (h : Cw3Flex.execute (run ext fuel w0 ops).flex g self blk snd funds (.execute id) = .ok (s', out)) :
+    ∃ p, (run ext fuel w0 ops).flex.core.proposals.get? id = some p ∧
+      out = (match p.deposit with | some d => [refundMsg d p.proposer] | none => []) ++ p0.msgs.map Out.msg := by
+  obtain ⟨p, hp, hout⟩ := execute_out h
+  obtain ⟨p', hp', _, _, hm, _⟩ := proposal_immutable hr ops hp0
+  rw [hp] at hp'; cases hp'
+  exact ⟨p, hp, by rw [hout, hm]⟩
+
+/-- **General re-entrancy** (covers indirect cycles 1 → 2 → 1, group updates and hooks in between): once a proposal is
+stored Executed, whatever is dispatched afterwards adds no further `executed id` event to the ghost log — a nested
+Execute of it anywhere fails and with it the whole dispatch; a successful dispatch contains none. -/
+theorem dispatch_no_second_execution {ext : Ext} {fuel : Nat} {w w' : World} {blk : Block} {outs : List Out} {id : Nat}
+    (hi : Inv w.flex) (hx : isExec w.flex.core id = true) (h : dispatch ext fuel w blk outs = .ok w') :
+    w'.log.count (.executed id) = w.log.count (.executed id) ∧ isExec w'.flex.core id = true := by
+  have := dispatch_inv ext
+    (fun v => Inv v.flex ∧ isExec v.flex.core id = true ∧ v.log.count (.executed id) = w.log.count (.executed id)) blk
+    (fun v snd funds em s' out ⟨hi, hx, hc⟩ he => by
+      obtain ⟨h1, h2⟩ := handler_isExec hi he id
+      refine ⟨execute_inv hi he, by rw [h1, hx]; rfl, ?_⟩
+      have hne : eventOf v.flex snd em ≠ .executed id := by
+        intro e
+        have := h2 ((eventOf_executed _ _ _ _).mp e)
+        rw [hx] at this; cases this
+      simp only [List.count_append, List.count_cons, List.count_nil]
+      simp [hne, hc])
+    (fun v snd m g' outs ⟨hi, hx, hc⟩ _ => ⟨hi, hx, by simp [List.count_append, hc]⟩)
+    (fun v b hq => hq) (fun v t hq => hq) fuel w outs w' ⟨hi, hx, rfl⟩ h
+  exact ⟨this.2.2, this.2.1⟩
+
 /-! ## the observed status only moves forward — over time, and over operations and time -/
 
 /-- On histories whose blocks never go back, a proposal stored Open and not yet expired at the block of
@@ -387,6 +557,16 @@ theorem observed_status_monotone {ext : Ext} {fuel : Nat} {w0 w : World} {b1 b b
   rw [hp] at hp'; cases hp'
   exact hfo
 
+/-- **Every `Proposal` query of an existing proposal answers, at every block** — in every reachable world, for every
+proposal whose four tally counters together fit `u64` (`Proposal.Fits`; always the case outside the same-block finding
+D3, `C06Flex.flex_tally_le_total`).  Parity with `C05.query_always_answers`; the proviso cannot be dropped for
+cw3-flex because the recorded total need not bound the tally (D3). -/
+theorem query_always_answers {ext : Ext} {fuel : Nat} {w : World} (hr : Reachable ext fuel w) {id : Nat} {p : Proposal}
+    (hp : w.flex.core.proposals.get? id = some p) (hfit : p.Fits) (blk : Block) :
+    ∃ v, Cw3Flex.queryProposal w.flex blk id = .ok v := by
+  obtain ⟨st, hst⟩ := reachable_statusInv hr id p hp hfit blk
+  simp [Cw3Flex.queryProposal, Cw3Core.queryProposal, load, hp, viewOf, hst, bind, Except.bind, pure, Except.pure]
+
 /-! ## non-vacuity -/
 
 open CwPlus.Props.C15 in
@@ -430,6 +610,27 @@ the further history -/
 example : ((Cw3Flex.queryProposal exW0.flex ⟨11, 0⟩ 1).toOption.map (·.status)) = some .open ∧
     ((Cw3Flex.queryProposal exW0.flex ⟨15, 0⟩ 1).toOption.map (·.status)) = some .rejected ∧
     ((Cw3Flex.queryProposal (run Cex.noExt 10 exW0 exMore).flex ⟨20, 0⟩ 1).toOption.map (·.status)) = some .executed := by
+  decide
+
+open CwPlus.Props.C15 in
+/-- non-vacuity of the parity theorems: after the further history proposal 1 is stored Executed with ghost count 1, ids
+are `1..1`, and the Propose of `exW0` created it as proposed (threshold 3 = configured, total 5 = the group's) -/
+example : executions (run Cex.noExt 10 exW0 exMore) 1 = 1 ∧ isExec (run Cex.noExt 10 exW0 exMore).flex.core 1 = true ∧
+    (run Cex.noExt 10 exW0 exMore).flex.core.count = 1 ∧
+    ((exW0.flex.core.proposals.get? 1).map fun p => (p.threshold, p.totalWeight, p.msgs, p.proposer, p.startHeight))
+      = some (.absoluteCount 3, 5, [], "a", 10) := by
+  decide
+
+/-- non-vacuity of `query_always_answers`: the proposal of the reachable world `exW0` fits `u64` (tally 1/0/0/0) -/
+example : ((exW0.flex.core.proposals.get? 1).map fun p =>
+    decide (p.votes.yes + p.votes.no + p.votes.abstain + p.votes.veto ≤ U64_MAX)) = some true := by decide
+
+open CwPlus.Props.C15 in
+/-- non-vacuity of `dispatch_no_second_execution`: in the world after `exMore` proposal 1 is stored Executed; a further
+dispatch (the group's hook message to the multisig) succeeds and the ghost count stays 1 -/
+example : isExec (run Cex.noExt 10 exW0 exMore).flex.core 1 = true ∧
+    ((dispatch Cex.noExt 5 (run Cex.noExt 10 exW0 exMore) ⟨14, 0⟩ [.groupHook "ms"]).toOption.map fun w' => executions w' 1)
+      = some 1 := by
   decide
 
 end CwPlus.Props.C05Flex
